@@ -155,21 +155,44 @@ def kwsig(name, kw):
     return ",".join(keys)
 
 
-def check(name, kw, lay, C, p):
+def inner_menu(C):
+    """Label-rewriting wrappers that change the class count, to put *below* the wrapper under test."""
+    out = [("RandomSuperclassWrapper", dict(classes_per_superclass=2, superclass_splits=1, shuffle=False, seed=0)),
+           ("KDRandomClassWrapper", dict(mode="random", num_classes=2, seed=0)),
+           ("KDRandomClassWrapper", dict(mode="random", num_classes=5, seed=1))]
+    if C % 2 == 0:
+        out.append(("ClassGroupsWrapper", dict(classes_per_group=2, shuffle=False, seed=0)))
+    return out
+
+
+def stack_inner(base, inner):
+    """-> (dataset the wrapper under test wraps, its per-sample labels, its class count)"""
+    if inner is None:
+        return base, list(base.layout), base.C
+    mid = build(inner[0], base, inner[1])
+    return mid, [int(mid.getitem_class(i)) for i in range(len(base.layout))], int(mid.getdim_class())
+
+
+def check(name, kw, lay, C, p, inner=None):
     L = lib()
     np, torch = L["np"], L["torch"]
     n = len(lay)
-    case = dict(wrapper=name, kwargs={k: (tolist(v) if hasattr(v, "tolist") else v) for k, v in kw.items()}, layout=list(lay), C=C)
-    tag = f"|{name}|{kwsig(name, kw)}"
+    case = dict(wrapper=name, kwargs={k: (tolist(v) if hasattr(v, "tolist") else v) for k, v in kw.items()}, layout=list(lay), C=C,
+                inner=[inner[0], inner[1]] if inner else None)
+    tag = f"|{name}|{kwsig(name, kw)}" + (f"|on_top_of={inner[0]}" if inner else "")
+    root_lay, root_C = lay, C
 
     def bad(kind, msg):
-        p.violation(f"C16:{kind}{tag}", case, f"{name}({case['kwargs']}) on labels {list(lay)} ({C} classes): {msg}")
+        # the bulk accessor of a wrapper is one call site whatever it is stacked on
+        t = tag.split("|on_top_of=")[0] if kind == "bulk_differs_from_per_sample" else tag
+        p.violation(f"C16:{kind}{t}", case, f"{name}({case['kwargs']}) on labels {list(lay)} ({C} classes): {msg}")
 
     np.random.seed(11)
     torch.manual_seed(11)
     base = L["Base"](lay, C)
     try:
-        w = build(name, base, kw)
+        below, lay, C = stack_inner(base, inner)
+        w = build(name, below, kw)
     except REJECT:
         p.count("rejected")
         return
@@ -200,9 +223,10 @@ def check(name, kw, lay, C, p):
     except Exception as e:
         bad(f"exception_at_getall:{type(e).__name__}", repr(e))
     # wrapped data and the wrapped dataset's own labels untouched
-    if base.layout != list(lay) or [base.getitem_class(i) for i in range(n)] != list(lay):
-        bad("wrapped_labels_mutated", f"wrapped dataset now has labels {base.layout}")
-        base.layout[:] = list(lay)
+    if base.layout != list(root_lay) or [base.getitem_class(i) for i in range(n)] != list(root_lay) \
+            or [int(below.getitem_class(i)) for i in range(n)] != list(lay):
+        bad("wrapped_labels_mutated", f"wrapped dataset now has labels {base.layout} / {[int(below.getitem_class(i)) for i in range(n)]}")
+        base.layout[:] = list(root_lay)
     if [w.getitem_x(i) for i in range(n)] != [("x", i) for i in range(n)]:
         bad("other_item_changed", "x differs")
     # range
@@ -232,7 +256,7 @@ def check(name, kw, lay, C, p):
         np.random.seed(99)
         torch.manual_seed(99)
         try:
-            w2 = build(name, L["Base"](lay, C), kw)
+            w2 = build(name, stack_inner(L["Base"](root_lay, root_C), inner)[0], kw)
             per3 = [tolist(w2.getitem_class(i)) for i in range(n)]
             if per3 != per:
                 bad("mapping_depends_on_global_rng", f"{per} vs {per3}")
@@ -250,7 +274,10 @@ def check(name, kw, lay, C, p):
             pass
         except Exception as e:
             bad(f"exception_in_bulk_consumer:{type(e).__name__}", repr(e))
-    p.observe((name, repr(sorted(case["kwargs"].items(), key=str)), tuple(lay), repr(per)))
+    p.observe((name, repr(sorted(case["kwargs"].items(), key=str)), tuple(root_lay), inner[0] if inner else None, repr(per)))
+
+
+STACK_MAXLEN = [3]
 
 
 def layouts(maxlen):
@@ -262,24 +289,41 @@ def layouts(maxlen):
 
 def task(items):
     p = Partial()
+    L = lib()
     for lay, C in items:
-        for name, kw, _ in configs(len(lay), C, lay):
+        stacks = [None] + (inner_menu(C) if len(lay) <= STACK_MAXLEN[0] else [])
+        for inner in stacks:
             try:
-                check(name, kw, lay, C, p)
+                _, lay_eff, C_eff = stack_inner(L["Base"](lay, C), inner)
             except Exception as e:
-                p.violation(f"C16:exception:{type(e).__name__}|{name}|{kwsig(name, kw)}",
-                            dict(wrapper=name, kwargs={k: (tolist(v) if hasattr(v, "tolist") else v) for k, v in kw.items()}, layout=list(lay), C=C),
-                            f"{name} on labels {list(lay)}: {e!r}")
+                p.count(f"inner_rejected:{inner[0]}:{type(e).__name__}")
+                continue
+            if C_eff < 2:
+                p.count("inner_skipped_single_class")  # a class dimension of 1 means 'binary' in this library: other conventions
+                continue
+            for name, kw, _ in configs(len(lay), C_eff, lay_eff):
+                if inner is not None and kw.get("seed", 0) == 1:
+                    continue  # stacked: one seed per wrapper
+                try:
+                    check(name, kw, lay, C, p, inner)
+                except Exception as e:
+                    p.violation(f"C16:exception:{type(e).__name__}|{name}|{kwsig(name, kw)}" + (f"|on_top_of={inner[0]}" if inner else ""),
+                                dict(wrapper=name, kwargs={k: (tolist(v) if hasattr(v, "tolist") else v) for k, v in kw.items()},
+                                     layout=list(lay), C=C, inner=[inner[0], inner[1]] if inner else None),
+                                f"{name} on labels {list(lay)}: {e!r}")
     p.sample(dict(layout=list(items[-1][0]), classes=items[-1][1], wrappers=sorted({c[0] for c in configs(len(items[-1][0]), items[-1][1], items[-1][0])})))
     return p
 
 
 def run(run):
     maxlen = 4 if run.tier == "quick" else 5
+    STACK_MAXLEN[0] = 3 if run.tier == "quick" else 4
     lays = list(layouts(maxlen))
     chunk = 8 if run.tier == "quick" else 24
     run.pmap(task, [lays[i:i + chunk] for i in range(0, len(lays), chunk)][::-1])
-    run.extra.update(bounds=dict(layout_len=f"1..{maxlen}", classes="2..4"), layouts=len(lays))
+    run.extra.update(bounds=dict(layout_len=f"1..{maxlen}", classes="2..4",
+                                 stacked=f"every wrapper also on top of each class-count-changing wrapper {sorted({i[0] for i in inner_menu(4)})} "
+                                         f"for layouts of length <= {STACK_MAXLEN[0]}"), layouts=len(lays))
     run.assumptions += [
         "group sizes divide the class count, world sizes do not exceed the dataset size (stated domain)",
         "the wrapped dataset hands out its internal label list from getall_class (as KDRandomClassWrapper does)",
@@ -295,5 +339,6 @@ def replay(case):
         kw["pseudo_labels"] = torch.tensor(kw["pseudo_labels"])
     if case["wrapper"] == "OverwriteClassesWrapper" and isinstance(kw.get("classes"), list):
         pass
-    check(case["wrapper"], kw, tuple(case["layout"]), case["C"], p)
+    inner = case.get("inner")
+    check(case["wrapper"], kw, tuple(case["layout"]), case["C"], p, tuple(inner) if inner else None)
     return None if not p.violations else "; ".join(m for _, m in list(p.violations.values())[:3])
